@@ -21,27 +21,29 @@ def handle (line : String) : String :=
     match parseInts? rest with
     | some [a, b] =>
       -- domain of C11: operands representable and not the minimum of a signed type
-      let inDom := t.fits a ∧ t.fits b ∧ t.fits (-a) ∧ t.fits (-b)
+      let inDom := t.fits a ∧ t.fits b ∧ t.fits (a.natAbs : Int) ∧ t.fits (b.natAbs : Int)
       answer (showExcept toString (gcdT t a b)) (if inDom then toString (specGcd a b) else "any")
     | _ => badLine line
   | ("lcm", some t), rest =>
     match parseInts? rest with
     | some [a, b] =>
-      let inDom := t.fits a ∧ t.fits b ∧ t.fits (-a) ∧ t.fits (-b) ∧ ¬ (a = 0 ∧ b = 0) ∧ t.fits (specLcm a b)
+      let inDom := t.fits a ∧ t.fits b ∧ t.fits (a.natAbs : Int) ∧ t.fits (b.natAbs : Int) ∧ ¬ (a = 0 ∧ b = 0) ∧ t.fits (specLcm a b)
       answer (showExcept toString (lcmT t a b)) (if inDom then toString (specLcm a b) else "any")
     | _ => badLine line
   | ("egcd", none), rest =>
     match parseInts? rest with
     | some [a, b, c] =>
-      let r := egcd a b c
-      let s := if a = 0 ∧ b = 0 then "any" else if specSolvable a b c then "solution" else "none"
+      -- the harness instantiates `egcd` / `crt` at i64; the property's box is |a|,|b|,|c| ≤ 2^20
+      let r := egcdT IntTy.i64 a b c
+      let inBox := a.natAbs ≤ 2 ^ 20 ∧ b.natAbs ≤ 2 ^ 20 ∧ c.natAbs ≤ 2 ^ 20
+      let s := if (a = 0 ∧ b = 0) ∨ ¬ inBox then "any" else if specSolvable a b c then "solution" else "none"
       answer3 (showExcept showOptPair r) (viewSolve a b c r) s
     | _ => badLine line
   | ("crt", none), rest =>
     match parseInts? rest with
     | some [a1, m1, a2, m2] =>
-      let inDom := 1 ≤ m1 ∧ 1 ≤ m2 ∧ 0 ≤ a1 ∧ a1 < m1 ∧ 0 ≤ a2 ∧ a2 < m2
-      let r := crt a1 m1 a2 m2
+      let inDom := 1 ≤ m1 ∧ m1 ≤ 2 ^ 20 ∧ 1 ≤ m2 ∧ m2 ≤ 2 ^ 20 ∧ 0 ≤ a1 ∧ a1 < m1 ∧ 0 ≤ a2 ∧ a2 < m2
+      let r := crtT IntTy.i64 a1 m1 a2 m2
       let s := if ¬ inDom then "any" else if specCrtSolvable a1 m1 a2 m2 then "solution" else "none"
       answer3 (showExcept showOptInt r) (viewCrt a1 m1 a2 m2 r) s
     | _ => badLine line
